@@ -444,7 +444,7 @@ class Interp:
             return s.gep(bt,pv,idx)
         if txt.startswith('bitcast') or txt.startswith('inttoptr') or txt.startswith('ptrtoint') or txt.startswith('addrspacecast'):
             m=re.match(r'\w+ \((.*) to .*\)$',txt); return s.typed(env,m.group(1))[1]
-        m=re.match(r'(add|sub|mul|and|or|xor|shl|lshr) (?:nsw |nuw )*\((.*)\)$',txt)
+        m=re.match(r'(add|sub|mul|and|or|xor|shl|lshr|ashr|udiv|urem|sdiv|srem) (?:nsw |nuw |exact )*\((.*)\)$',txt)
         if m:
             a,b=[s.typed(env,x)[1] for x in split_top(m.group(2))]
             if isinstance(a,Ptr) and isinstance(b,Ptr) and m.group(1)=='sub':
@@ -748,6 +748,11 @@ def binop(op,a,b,w):
         if op=='urem': return a%b
         if op=='ashr':
             sa=a-(1<<w) if a>>(w-1) else a; return (sa>>b)&mask(w)
+        if op in ('sdiv','srem'):
+            sa=a-(1<<w) if a>>(w-1) else a; sb=b-(1<<w) if b>>(w-1) else b
+            if sb==0: raise Exception('signed division by zero')
+            qq=abs(sa)//abs(sb); qq=-qq if (sa<0)!=(sb<0) else qq
+            return (qq if op=='sdiv' else sa-qq*sb)&mask(w)
         raise Exception(op)
     if op=='mul':
         for x,y in ((a,b),(b,a)):
